@@ -169,7 +169,7 @@ def run_property(pid, tier, seed):
             # process and only what fails again (same kind) is kept; a replay that does not
             # replay demonstrates nothing, and timeouts under machine load must not raise alarms
             suspects = sorted(set(ev["oracle"]) | set(ev["corr"]))
-            if suspects:
+            if suspects and getattr(part, "confirm", True):
                 first_obs = {i: ev["obs"][i] for i in suspects}
                 try:
                     ev2 = eval_part(part, binary, [inputs[i] for i in suspects], work, part.name + "_confirm")
